@@ -10,7 +10,7 @@ from __future__ import annotations
 import json
 from typing import Any, Dict, List
 
-from .common import call, same, is_symbolic
+from .common import call, same, is_symbolic, replay_tiers
 from sx.values import s_and, s_not
 
 PROP = "C05"
@@ -298,7 +298,7 @@ OUTSIDE = ["more points / longer histories than the stated bounds", "float forma
 
 def replay(obligation: str, witness):
     from sx.concrete import run_concrete
-    for tier in ("thorough", "quick"):
+    for tier in replay_tiers():
         for ob in obligations(tier):
             if ob.name == obligation:
                 reproduced, msg, _ = run_concrete(ob.harness, witness)
